@@ -26,6 +26,9 @@
    signature under one lock), AddShare / RemoveShare hold the key manager's wallet lock exclusively, so the
    calls are atomic with respect to each other and "concurrent signing" is: the calls take effect in any order.
    Weaken = "noSignLock" splits Sign into SignCheck / SignCommit (what the code would do without that lock).
+   (Observed on the real code, outside C04: SimpleSigner.lock holds its map mutex while waiting for the
+   account mutex and unlock needs the map mutex, so two overlapping requests for one account and one duty
+   type deadlock instead of queueing; stuck requests never return and therefore release nothing.)
 
    Environment assumption of the property: attestation targets and block slots are never beyond the clock.
 
